@@ -1272,7 +1272,11 @@ def part_real_thermo(ctx, res, N, rtol=1e-6):
     for _ in range(N):
         s = ctx.rng.getrandbits(48); r = random.Random(s)
         def _body():
-            if r.random() < 0.7:      # mostly inside the gamma + gamma' region
+            u = r.random()
+            if u < 0.3:               # clearly undersaturated, unequal solute contents: negative driving force, where the tangent
+                # method finds the precipitate composition set collapsed onto the matrix and falls back to sampling
+                xa = [r.uniform(0.005, 0.06), r.uniform(0.02, 0.22)]; T = r.uniform(1000, 1400)   # AL, CR
+            elif u < 0.8:             # inside the gamma + gamma' region
                 xa = [r.uniform(0.095, 0.13), r.uniform(0.05, 0.11)]; T = r.uniform(950, 1090)
             else:
                 xa = [r.uniform(0.05, 0.13), r.uniform(0.04, 0.13)]; T = r.uniform(950, 1250)   # AL, CR
